@@ -157,10 +157,12 @@ structure Ext (sh sh' : Shared) : Prop where
   /-- a new cell is not an entry of any older index version -/
   fresh : ∀ o x, sh'.blk.textAt o = some x →
       sh.blk.textAt o = some x ∨ ∀ k, k < sh.ntables → o ∉ sh.tables k
+  /-- (I3) the published index only gains entries (in place and across growth) -/
+  tbl_mono : ∀ o, o ∈ sh.tbl → o ∈ sh'.tbl
 
 theorem Ext.refl (sh : Shared) : Ext sh sh :=
   ⟨Nat.le_refl _, Nat.le_refl _, fun _ _ => rfl, fun _ _ _ h => h, fun _ _ h => h,
-   fun _ _ h => Or.inl h⟩
+   fun _ _ h => Or.inl h, fun _ h => h⟩
 
 theorem ResOK.ext {cfg sh sh' x a} (he : Ext sh sh') (h : ResOK cfg sh x a) : ResOK cfg sh' x a := by
   cases a <;> simp only [ResOK] at h ⊢
@@ -193,5 +195,583 @@ theorem other {cfg : Cfg} {sh sh' : Shared} {u : Tid} {l : Local}
       · exact hp.2.2 o ho h
       · exact h _ hl.ti_lt ho
     all_goals simp at hcs
+
+
+theorem allocSize_pos (x : Text) : 0 < allocSize x := by unfold allocSize; omega
+
+/-- what a step of thread `t` establishes -/
+structure Own (cfg : Cfg) (sh : Shared) (t : Tid) (sh' : Shared) (l' : Local) : Prop where
+  g : GInv sh'
+  l : LInv cfg sh' t l'
+  e : Ext sh sh'
+  frame : ∀ u, u ≠ t → sh.lock = some u → sh' = sh
+
+theorem own_same {cfg sh t l'} (hg : GInv sh) (hl : LInv cfg sh t l') : Own cfg sh t sh l' :=
+  ⟨hg, hl, Ext.refl sh, fun _ _ _ => rfl⟩
+
+theorem own_idle {cfg sh t l} (hg : GInv sh) (hl : LInv cfg sh t l) (hpc : l.pc = .idle) :
+    Own cfg sh t (stepT cfg sh t l).1 (stepT cfg sh t l).2 := by
+  unfold stepT
+  simp only [hpc]
+  split
+  · exact own_same hg hl
+  · rename_i x rest hs
+    split
+    · rename_i hx
+      refine own_same hg ⟨hl.bi_lt, hl.ti_lt, ?_, ?_⟩
+      · intro y a hy
+        simp only [List.mem_cons, Prod.mk.injEq] at hy
+        rcases hy with ⟨rfl, rfl⟩ | hy
+        · exact ⟨rfl, hx⟩
+        · exact hl.res y a hy
+      · simp [PcInv, hpc]
+    · rename_i hx
+      refine own_same hg ⟨hl.bi_lt, hl.ti_lt, hl.res, ?_⟩
+      simpa [PcInv] using hx
+
+
+theorem own_readInner {cfg sh t l} (hg : GInv sh) (hl : LInv cfg sh t l) (hpc : l.pc = .readInner) :
+    Own cfg sh t (stepT cfg sh t l).1 (stepT cfg sh t l).2 := by
+  have hp := hl.pcinv
+  unfold stepT
+  simp only [PcInv, hpc] at hp ⊢
+  exact own_same hg ⟨hg.cur_lt, hl.ti_lt, hl.res, by simpa [PcInv] using hp⟩
+
+theorem own_readTable {cfg sh t l} (hg : GInv sh) (hl : LInv cfg sh t l) (hpc : l.pc = .readTable) :
+    Own cfg sh t (stepT cfg sh t l).1 (stepT cfg sh t l).2 := by
+  have hp := hl.pcinv
+  unfold stepT
+  simp only [PcInv, hpc] at hp ⊢
+  exact own_same hg ⟨hl.bi_lt, hg.tcur_lt _ hl.bi_lt, hl.res, by simpa [PcInv] using hp⟩
+
+theorem own_lookup {cfg sh t l} (hg : GInv sh) (hl : LInv cfg sh t l) (hpc : l.pc = .lookup) :
+    Own cfg sh t (stepT cfg sh t l).1 (stepT cfg sh t l).2 := by
+  have hp := hl.pcinv
+  unfold stepT
+  simp only [PcInv, hpc] at hp ⊢
+  split
+  · rename_i hs
+    refine own_same hg ⟨hl.bi_lt, hl.ti_lt, ?_, by simp [PcInv, finish]⟩
+    intro y a hy
+    simp only [finish, List.mem_cons, Prod.mk.injEq] at hy
+    rcases hy with ⟨rfl, rfl⟩ | hy
+    · exact ⟨rfl, hp.1, hs⟩
+    · exact hl.res y a hy
+  · rename_i hs
+    split
+    · rename_i o ho
+      refine own_same hg ⟨hl.bi_lt, hl.ti_lt, ?_, by simp [PcInv, finish]⟩
+      intro y a hy
+      simp only [finish, List.mem_cons, Prod.mk.injEq] at hy
+      rcases hy with ⟨rfl, rfl⟩ | hy
+      · exact ⟨hp.1, by simpa using hs, (tableLookup_some ho).1⟩
+      · exact hl.res y a hy
+    · rename_i ho
+      refine own_same hg ⟨hl.bi_lt, hl.ti_lt, hl.res, ?_⟩
+      simp only [PcInv]
+      exact ⟨hp.1, by simpa using hs, fun o h => tableLookup_none ho o (hp.2 o h)⟩
+
+theorem own_lock {cfg sh t l} (hg : GInv sh) (hl : LInv cfg sh t l) (hpc : l.pc = .lock) :
+    Own cfg sh t (stepT cfg sh t l).1 (stepT cfg sh t l).2 := by
+  have hp := hl.pcinv
+  unfold stepT
+  simp only [PcInv, hpc] at hp ⊢
+  split
+  · rename_i hk
+    refine ⟨⟨hg.cur_lt, hg.tcur_lt, hg.cells_lt, hg.tbl_cells, hg.inj, hg.nodup, by simp⟩,
+      ⟨hl.bi_lt, hl.ti_lt, hl.res, ?_⟩,
+      ⟨Nat.le_refl _, Nat.le_refl _, fun _ _ => rfl, fun _ _ _ h => h, fun _ _ h => h,
+       fun _ _ h => Or.inl h, fun _ h => h⟩, ?_⟩
+    · simp only [PcInv]
+      exact ⟨trivial, hp.1, hp.2.1, hp.2.2, hg.unlocked hk⟩
+    · intro u _ hu; rw [hk] at hu; cases hu
+  · exact own_same hg hl
+
+
+theorem own_recheck {cfg sh t l} (hr : cfg.recheck = true) (hg : GInv sh) (hl : LInv cfg sh t l)
+    (hpc : l.pc = .recheck) :
+    Own cfg sh t (stepT cfg sh t l).1 (stepT cfg sh t l).2 := by
+  have hp := hl.pcinv
+  unfold stepT
+  simp only [PcInv, hpc, hr] at hp ⊢
+  obtain ⟨hlk, hni, hns, hmiss, hall⟩ := hp
+  split
+  · rename_i hc
+    simp at hc
+    refine own_same hg ⟨hl.bi_lt, hl.ti_lt, hl.res, ?_⟩
+    simp only [PcInv]
+    refine ⟨hlk, hni, hns, hc.1, by rw [hc.2, hc.1], hall, ?_⟩
+    intro o ho
+    have := hall o _ ho
+    unfold Shared.tbl at this
+    rw [← hc.1, ← hc.2] at this
+    exact hmiss o this ho
+  · refine ⟨⟨hg.cur_lt, hg.tcur_lt, hg.cells_lt, hg.tbl_cells, hg.inj, hg.nodup, fun _ => hall⟩,
+      ⟨hl.bi_lt, hl.ti_lt, hl.res, ?_⟩,
+      ⟨Nat.le_refl _, Nat.le_refl _, fun _ _ => rfl, fun _ _ _ h => h, fun _ _ h => h,
+       fun _ _ h => Or.inl h, fun _ h => h⟩, ?_⟩
+    · simpa [PcInv] using hni
+    · intro u hu hu'; rw [hlk] at hu'; cases hu'; exact absurd rfl hu
+
+theorem own_unlock {cfg sh t l} (hg : GInv sh) (hl : LInv cfg sh t l) (hpc : l.pc = .unlock) :
+    Own cfg sh t (stepT cfg sh t l).1 (stepT cfg sh t l).2 := by
+  have hp := hl.pcinv
+  unfold stepT
+  simp only [PcInv, hpc] at hp ⊢
+  obtain ⟨hlk, hni, hns, hall, hoff⟩ := hp
+  refine ⟨⟨hg.cur_lt, hg.tcur_lt, hg.cells_lt, hg.tbl_cells, hg.inj, hg.nodup, fun _ => hall⟩,
+    ⟨hl.bi_lt, hl.ti_lt, ?_, by simp [PcInv, finish]⟩,
+    ⟨Nat.le_refl _, Nat.le_refl _, fun _ _ => rfl, fun _ _ _ h => h, fun _ _ h => h,
+     fun _ _ h => Or.inl h, fun _ h => h⟩, ?_⟩
+  · intro y a hy
+    simp only [finish, List.mem_cons, Prod.mk.injEq] at hy
+    rcases hy with ⟨rfl, rfl⟩ | hy
+    · exact ⟨hni, hns, hoff⟩
+    · exact hl.res y a hy
+  · intro u hu hu'; rw [hlk] at hu'; cases hu'; exact absurd rfl hu
+
+theorem own_publishInner {cfg sh t l} (hg : GInv sh) (hl : LInv cfg sh t l)
+    (hpc : l.pc = .publishInner) :
+    Own cfg sh t (stepT cfg sh t l).1 (stepT cfg sh t l).2 := by
+  have hp := hl.pcinv
+  unfold stepT
+  simp only [PcInv, hpc] at hp ⊢
+  obtain ⟨hlk, hni, hns, hbi, hti, hall, habs, hnb, hcells, hused, htbl⟩ := hp
+  have htx : ∀ o, (sh.inners l.nb).block.textAt o = sh.blk.textAt o := by
+    intro o; simp only [Block.textAt, hcells]
+  refine ⟨⟨hnb, hg.tcur_lt, ?_, ?_, ?_, hg.nodup, ?_⟩, ⟨hnb, hg.tcur_lt _ hnb, ?_, ?_⟩,
+    ⟨Nat.le_refl _, Nat.le_refl _, fun _ _ => rfl, fun _ _ _ h => h, ?_, ?_, ?_⟩, ?_⟩
+  · intro o x h
+    simp only [Shared.blk] at h ⊢
+    rw [htx] at h; rw [hused]; exact hg.cells_lt o x h
+  · intro k hk o ho
+    simp only [Shared.blk]
+    obtain ⟨x, hx⟩ := hg.tbl_cells k hk o ho
+    exact ⟨x, by rw [htx]; exact hx⟩
+  · intro o1 o2 x h1 h2
+    simp only [Shared.blk] at h1 h2
+    rw [htx] at h1 h2
+    exact hg.inj o1 o2 x h1 h2
+  · intro h; rw [hlk] at h; cases h
+  · intro x a h
+    have := hl.res x a h
+    cases a <;> simp only [ResOK] at this ⊢
+    · exact this
+    · exact this
+    · refine ⟨this.1, this.2.1, ?_⟩
+      simp only [Shared.blk]; rw [htx]; exact this.2.2
+  · simp only [PcInv]
+    refine ⟨hlk, hni, hns, trivial, trivial, ?_, ?_⟩
+    · intro o x h
+      simp only [Shared.blk, Shared.tbl] at h ⊢
+      rw [htx] at h; rw [htbl]; exact hall o x h
+    · intro o
+      simp only [Shared.blk]
+      rw [htx]; exact habs o
+  · intro o x h
+    simp only [Shared.blk]
+    rw [htx]; exact h
+  · intro o x h
+    simp only [Shared.blk] at h
+    rw [htx] at h; exact Or.inl h
+  · intro o h
+    simp only [Shared.tbl]
+    rw [htbl]; exact h
+  · intro u hu hu'; rw [hlk] at hu'; cases hu'; exact absurd rfl hu
+
+
+theorem own_write {cfg sh t l} (hg : GInv sh) (hl : LInv cfg sh t l) (hpc : l.pc = .write) :
+    Own cfg sh t (stepT cfg sh t l).1 (stepT cfg sh t l).2 := by
+  have hp := hl.pcinv
+  unfold stepT
+  simp only [PcInv, hpc] at hp ⊢
+  obtain ⟨hlk, hni, hns, hbi, hti, hall, habs, hlt, hoff⟩ := hp
+  -- the new block: one more cell at the fresh offset
+  have hblk : ∀ o, (Shared.blk { sh with inners := (upd sh.inners l.bi
+        { sh.inners l.bi with block := { (sh.inners l.bi).block with
+            cells := (l.off, l.text) :: (sh.inners l.bi).block.cells } }) }).textAt o
+      = if o = l.off then some l.text else sh.blk.textAt o := by
+    intro o; simp [Shared.blk, hbi, Block.textAt]
+  have hused : (Shared.blk { sh with inners := (upd sh.inners l.bi
+        { sh.inners l.bi with block := { (sh.inners l.bi).block with
+            cells := (l.off, l.text) :: (sh.inners l.bi).block.cells } }) }).used = sh.blk.used := by
+    simp [Shared.blk, hbi]
+  have htbl : (Shared.tbl { sh with inners := (upd sh.inners l.bi
+        { sh.inners l.bi with block := { (sh.inners l.bi).block with
+            cells := (l.off, l.text) :: (sh.inners l.bi).block.cells } }) }) = sh.tbl := by
+    simp [Shared.tbl, hbi]
+  have hold : ∀ o x, sh.blk.textAt o = some x → o ≠ l.off := fun o x h => Nat.ne_of_lt (hlt o x h)
+  have hnotin : ∀ k, k < sh.ntables → l.off ∉ sh.tables k := by
+    intro k hk hm
+    obtain ⟨x, hx⟩ := hg.tbl_cells k hk _ hm
+    exact hold _ _ hx rfl
+  refine ⟨⟨hg.cur_lt, ?_, ?_, ?_, ?_, hg.nodup, ?_⟩, ⟨hl.bi_lt, hl.ti_lt, ?_, ?_⟩,
+    ⟨Nat.le_refl _, Nat.le_refl _, fun _ _ => rfl, ?_, ?_, ?_, ?_⟩, ?_⟩
+  · intro i hi
+    simp only [upd_apply]; split
+    · rename_i h; subst h; exact hg.tcur_lt _ hi
+    · exact hg.tcur_lt _ hi
+  · intro o x h
+    rw [hblk] at h; rw [hused]
+    split at h
+    · rename_i ho; subst ho; exact hoff
+    · exact hg.cells_lt o x h
+  · intro k hk o ho
+    obtain ⟨x, hx⟩ := hg.tbl_cells k hk o ho
+    exact ⟨x, by rw [hblk, if_neg (hold o x hx)]; exact hx⟩
+  · intro o1 o2 x h1 h2
+    rw [hblk] at h1 h2
+    split at h1 <;> split at h2
+    · rename_i a b; rw [a, b]
+    · cases h1; exact absurd h2 (habs o2)
+    · cases h2; exact absurd h1 (habs o1)
+    · exact hg.inj o1 o2 x h1 h2
+  · intro h; rw [hlk] at h; cases h
+  · intro x a h
+    have := hl.res x a h
+    cases a <;> simp only [ResOK] at this ⊢
+    · exact this
+    · exact this
+    · refine ⟨this.1, this.2.1, ?_⟩
+      rw [hblk, if_neg (hold _ _ this.2.2)]; exact this.2.2
+  · simp only [PcInv]
+    refine ⟨hlk, hni, hns, hbi, ?_, ?_, ?_, ?_⟩
+    · simp [upd_apply, hbi, hti]
+    · rw [hblk]; simp
+    · rw [htbl]
+      exact hnotin _ (hg.tcur_lt _ hg.cur_lt)
+    · intro o x h
+      rw [hblk] at h; rw [htbl]
+      split at h
+      · rename_i ho; exact Or.inr ho
+      · exact Or.inl (hall o x h)
+  · intro i hi o ho
+    simp only [upd_apply]; split
+    · rename_i h; subst h; exact ho
+    · exact ho
+  · intro o x h
+    rw [hblk, if_neg (hold o x h)]; exact h
+  · intro o x h
+    rw [hblk] at h
+    split at h
+    · rename_i ho; subst ho; exact Or.inr hnotin
+    · exact Or.inl h
+  · intro o h; rw [htbl]; exact h
+  · intro u hu hu'; rw [hlk] at hu'; cases hu'; exact absurd rfl hu
+
+
+theorem own_publish {cfg sh t l} (hg : GInv sh) (hl : LInv cfg sh t l) (hpc : l.pc = .publish) :
+    Own cfg sh t (stepT cfg sh t l).1 (stepT cfg sh t l).2 := by
+  have hp := hl.pcinv
+  unfold stepT
+  simp only [PcInv, hpc] at hp ⊢
+  obtain ⟨hlk, hni, hns, hbi, hti, hoff, hnotin, hcov⟩ := hp
+  have htc := hg.tcur_lt _ hg.cur_lt
+  have hblk : (Shared.blk { sh with
+        tables := (upd sh.tables sh.ntables (insertSet (sh.tables l.ti) l.off)),
+        ntables := sh.ntables + 1,
+        inners := (upd sh.inners l.bi { sh.inners l.bi with tcur := sh.ntables }) }) = sh.blk := by
+    simp [Shared.blk, hbi]
+  have htbl : (Shared.tbl { sh with
+        tables := (upd sh.tables sh.ntables (insertSet (sh.tables l.ti) l.off)),
+        ntables := sh.ntables + 1,
+        inners := (upd sh.inners l.bi { sh.inners l.bi with tcur := sh.ntables }) })
+      = insertSet sh.tbl l.off := by
+    simp [Shared.tbl, hbi, hti]
+  refine ⟨⟨hg.cur_lt, ?_, ?_, ?_, ?_, ?_, ?_⟩, ⟨hl.bi_lt, Nat.lt_succ_of_lt hl.ti_lt, ?_, ?_⟩,
+    ⟨Nat.le_refl _, Nat.le_succ _, ?_, ?_, ?_, ?_, ?_⟩, ?_⟩
+  · intro i hi
+    simp only [upd_apply]; split
+    · exact Nat.lt_succ_self _
+    · exact Nat.lt_succ_of_lt (hg.tcur_lt _ hi)
+  · intro o x h; rw [hblk] at h ⊢; exact hg.cells_lt o x h
+  · intro k hk o ho
+    rw [hblk]
+    simp only [upd_apply] at ho
+    split at ho
+    · rcases mem_insertSet.mp ho with h | h
+      · exact hg.tbl_cells _ hl.ti_lt o h
+      · subst h; exact ⟨_, hoff⟩
+    · rename_i hne
+      exact hg.tbl_cells k (by simp only at hk; omega) o ho
+  · intro o1 o2 x h1 h2; rw [hblk] at h1 h2; exact hg.inj o1 o2 x h1 h2
+  · intro k hk
+    simp only [upd_apply]; split
+    · exact nodup_insertSet (hg.nodup _ hl.ti_lt)
+    · rename_i hne
+      exact hg.nodup k (by simp only at hk; omega)
+  · intro h; rw [hlk] at h; cases h
+  · intro x a h
+    have := hl.res x a h
+    cases a <;> simp only [ResOK] at this ⊢
+    · exact this
+    · exact this
+    · refine ⟨this.1, this.2.1, ?_⟩
+      rw [hblk]; exact this.2.2
+  · simp only [PcInv]
+    refine ⟨hlk, hni, hns, ?_, ?_⟩
+    · intro o x h
+      rw [hblk] at h; rw [htbl]
+      exact mem_insertSet.mpr (hcov o x h)
+    · rw [hblk]; exact hoff
+  · intro k hk
+    exact upd_ne _ _ (Nat.ne_of_lt hk)
+  · intro i hi o ho
+    simp only [upd_apply]
+    by_cases hib : i = l.bi
+    · subst hib
+      simp only [if_true]
+      rw [hbi] at ho
+      rw [hti]
+      exact mem_insertSet.mpr (Or.inl ho)
+    · simp only [if_neg hib]
+      rw [if_neg (Nat.ne_of_lt (hg.tcur_lt _ hi))]
+      exact ho
+  · intro o x h; rw [hblk]; exact h
+  · intro o x h; rw [hblk] at h; exact Or.inl h
+  · intro o h; rw [htbl]; exact mem_insertSet.mpr (Or.inl h)
+  · intro u hu hu'; rw [hlk] at hu'; cases hu'; exact absurd rfl hu
+
+
+theorem own_alloc {cfg sh t l} (hg : GInv sh) (hl : LInv cfg sh t l) (hpc : l.pc = .alloc) :
+    Own cfg sh t (stepT cfg sh t l).1 (stepT cfg sh t l).2 := by
+  have hp := hl.pcinv
+  unfold stepT
+  simp only [PcInv, hpc] at hp ⊢
+  obtain ⟨hlk, hni, hns, hbi, hti, hall, habs⟩ := hp
+  have htc := hg.tcur_lt _ hg.cur_lt
+  have hcl := hg.cur_lt
+  split
+  · -- the allocation fits: bump the pointer
+    have hblk : ∀ o, (Shared.blk { sh with inners := (upd sh.inners l.bi
+          { sh.inners l.bi with block := { (sh.inners l.bi).block with
+              used := (sh.inners l.bi).block.used + allocSize l.text } }) }).textAt o
+        = sh.blk.textAt o := by
+      intro o; simp [Shared.blk, hbi, Block.textAt]
+    have hused : (Shared.blk { sh with inners := (upd sh.inners l.bi
+          { sh.inners l.bi with block := { (sh.inners l.bi).block with
+              used := (sh.inners l.bi).block.used + allocSize l.text } }) }).used
+        = sh.blk.used + allocSize l.text := by
+      simp [Shared.blk, hbi]
+    have htbl : (Shared.tbl { sh with inners := (upd sh.inners l.bi
+          { sh.inners l.bi with block := { (sh.inners l.bi).block with
+              used := (sh.inners l.bi).block.used + allocSize l.text } }) }) = sh.tbl := by
+      simp [Shared.tbl, hbi]
+    have hpos := allocSize_pos l.text
+    refine ⟨⟨hg.cur_lt, ?_, ?_, ?_, ?_, hg.nodup, ?_⟩, ⟨hl.bi_lt, hl.ti_lt, ?_, ?_⟩,
+      ⟨Nat.le_refl _, Nat.le_refl _, fun _ _ => rfl, ?_, ?_, ?_, ?_⟩, ?_⟩
+    · intro i hi
+      simp only [upd_apply]; split
+      · rename_i h; subst h; exact hg.tcur_lt _ hi
+      · exact hg.tcur_lt _ hi
+    · intro o x h
+      rw [hblk] at h; rw [hused]
+      exact Nat.lt_of_lt_of_le (hg.cells_lt o x h) (Nat.le_add_right _ _)
+    · intro k hk o ho
+      obtain ⟨x, hx⟩ := hg.tbl_cells k hk o ho
+      exact ⟨x, by rw [hblk]; exact hx⟩
+    · intro o1 o2 x h1 h2
+      rw [hblk] at h1 h2
+      exact hg.inj o1 o2 x h1 h2
+    · intro h; rw [hlk] at h; cases h
+    · intro x a h
+      have := hl.res x a h
+      cases a <;> simp only [ResOK] at this ⊢
+      · exact this
+      · exact this
+      · refine ⟨this.1, this.2.1, ?_⟩
+        rw [hblk]; exact this.2.2
+    · simp only [PcInv]
+      refine ⟨hlk, hni, hns, hbi, ?_, ?_, ?_, ?_, ?_⟩
+      · simp [upd_apply, hbi, hti]
+      · intro o x h; rw [hblk] at h; rw [htbl]; exact hall o x h
+      · intro o; rw [hblk]; exact habs o
+      · intro o x h; rw [hblk] at h
+        have := hg.cells_lt o x h
+        simpa [Shared.blk, hbi] using this
+      · rw [hused]; simp only [Shared.blk, hbi]; omega
+    · intro i hi o ho
+      simp only [upd_apply]; split
+      · rename_i h; subst h; exact ho
+      · exact ho
+    · intro o x h; rw [hblk]; exact h
+    · intro o x h; rw [hblk] at h; exact Or.inl h
+    · intro o h; rw [htbl]; exact h
+    · intro u hu hu'; rw [hlk] at hu'; cases hu'; exact absurd rfl hu
+  · -- exhausted: build the grown copy (not yet published)
+    have hcur : (upd sh.inners sh.ninners
+          ({ block := { cap := 2 * (sh.inners l.bi).block.cap, used := (sh.inners l.bi).block.used,
+                        cells := (sh.inners l.bi).block.cells },
+             tcur := sh.ntables } : Inner)) sh.cur = sh.inners sh.cur :=
+      upd_ne _ _ (Nat.ne_of_lt hcl)
+    have hblk : (Shared.blk { sh with
+          inners := (upd sh.inners sh.ninners
+            { block := { cap := 2 * (sh.inners l.bi).block.cap, used := (sh.inners l.bi).block.used,
+                         cells := (sh.inners l.bi).block.cells },
+              tcur := sh.ntables }),
+          ninners := sh.ninners + 1,
+          tables := (upd sh.tables sh.ntables (sh.tables l.ti)),
+          ntables := sh.ntables + 1 }) = sh.blk := by
+      simp only [Shared.blk, hcur]
+    have htbl : (Shared.tbl { sh with
+          inners := (upd sh.inners sh.ninners
+            { block := { cap := 2 * (sh.inners l.bi).block.cap, used := (sh.inners l.bi).block.used,
+                         cells := (sh.inners l.bi).block.cells },
+              tcur := sh.ntables }),
+          ninners := sh.ninners + 1,
+          tables := (upd sh.tables sh.ntables (sh.tables l.ti)),
+          ntables := sh.ntables + 1 }) = sh.tbl := by
+      simp only [Shared.tbl, hcur]
+      exact upd_ne _ _ (Nat.ne_of_lt htc)
+    refine ⟨⟨Nat.lt_succ_of_lt hg.cur_lt, ?_, ?_, ?_, ?_, ?_, ?_⟩,
+      ⟨Nat.lt_succ_of_lt hl.bi_lt, Nat.lt_succ_of_lt hl.ti_lt, ?_, ?_⟩,
+      ⟨Nat.le_succ _, Nat.le_succ _, ?_, ?_, ?_, ?_, ?_⟩, ?_⟩
+    · intro i hi
+      simp only [upd_apply]; split
+      · exact Nat.lt_succ_self _
+      · rename_i hne
+        exact Nat.lt_succ_of_lt (hg.tcur_lt _ (by simp only at hi; omega))
+    · intro o x h; rw [hblk] at h ⊢; exact hg.cells_lt o x h
+    · intro k hk o ho
+      rw [hblk]
+      simp only [upd_apply] at ho
+      split at ho
+      · exact hg.tbl_cells _ hl.ti_lt o ho
+      · rename_i hne
+        exact hg.tbl_cells k (by simp only at hk; omega) o ho
+    · intro o1 o2 x h1 h2; rw [hblk] at h1 h2; exact hg.inj o1 o2 x h1 h2
+    · intro k hk
+      simp only [upd_apply]; split
+      · exact hg.nodup _ hl.ti_lt
+      · rename_i hne
+        exact hg.nodup k (by simp only at hk; omega)
+    · intro h; rw [hlk] at h; cases h
+    · intro x a h
+      have := hl.res x a h
+      cases a <;> simp only [ResOK] at this ⊢
+      · exact this
+      · exact this
+      · refine ⟨this.1, this.2.1, ?_⟩
+        rw [hblk]; exact this.2.2
+    · simp only [PcInv]
+      refine ⟨hlk, hni, hns, hbi, ?_, ?_, ?_, Nat.lt_succ_self _, ?_, ?_, ?_⟩
+      · rw [hcur]; exact hti
+      · intro o x h; rw [hblk] at h; rw [htbl]; exact hall o x h
+      · intro o; rw [hblk]; exact habs o
+      · rw [hblk]; simp [Shared.blk, hbi]
+      · rw [hblk]; simp [Shared.blk, hbi]
+      · rw [htbl]; simp [Shared.tbl, hti]
+    · intro k hk
+      exact upd_ne _ _ (Nat.ne_of_lt hk)
+    · intro i hi o ho
+      dsimp only
+      rw [upd_ne _ _ (Nat.ne_of_lt hi), upd_ne _ _ (Nat.ne_of_lt (hg.tcur_lt _ hi))]
+      exact ho
+    · intro o x h; rw [hblk]; exact h
+    · intro o x h; rw [hblk] at h; exact Or.inl h
+    · intro o h; rw [htbl]; exact h
+    · intro u hu hu'; rw [hlk] at hu'; cases hu'; exact absurd rfl hu
+
+/-- a step of thread `t` re-establishes everything and guarantees `Ext` + frame -/
+theorem own {cfg : Cfg} {sh : Shared} {t : Tid} {l : Local} (hr : cfg.recheck = true)
+    (hg : GInv sh) (hl : LInv cfg sh t l) :
+    Own cfg sh t (stepT cfg sh t l).1 (stepT cfg sh t l).2 := by
+  cases hpc : l.pc
+  · exact own_idle hg hl hpc
+  · exact own_readInner hg hl hpc
+  · exact own_readTable hg hl hpc
+  · exact own_lookup hg hl hpc
+  · exact own_lock hg hl hpc
+  · exact own_recheck hr hg hl hpc
+  · exact own_alloc hg hl hpc
+  · exact own_publishInner hg hl hpc
+  · exact own_write hg hl hpc
+  · exact own_publish hg hl hpc
+  · exact own_unlock hg hl hpc
+
+
+/-! ## the invariant of the whole system, for every schedule -/
+
+structure Inv (cfg : Cfg) (s : State) : Prop where
+  g : GInv s.sh
+  l : ∀ u, LInv cfg s.sh u (s.locals u)
+
+theorem inv_init (cfg : Cfg) (scripts : Tid → List Text) : Inv cfg (init cfg scripts) := by
+  refine ⟨⟨by simp [init, initShared], ?_, ?_, ?_, ?_, ?_, ?_⟩, fun u => ⟨?_, ?_, ?_, ?_⟩⟩
+  · intro i _; simp [init, initShared]
+  · intro o x h; simp [init, initShared, Shared.blk, Block.textAt] at h
+  · intro k _ o ho; simp [init, initShared] at ho
+  · intro o1 o2 x h; simp [init, initShared, Shared.blk, Block.textAt] at h
+  · intro k _; simp [init, initShared]
+  · intro _ o x h; simp [init, initShared, Shared.blk, Block.textAt] at h
+  · simp [init, initShared, initLocal]
+  · simp [init, initShared, initLocal]
+  · intro x a h; simp [init, initLocal] at h
+  · simp [init, initLocal, PcInv]
+
+theorem inv_step {cfg : Cfg} (hr : cfg.recheck = true) {s : State} (h : Inv cfg s) (t : Tid) :
+    Inv cfg (step cfg s t) ∧ Ext s.sh (step cfg s t).sh := by
+  have ho := own hr h.g (h.l t)
+  refine ⟨⟨ho.g, fun u => ?_⟩, ho.e⟩
+  by_cases hu : u = t
+  · subst hu
+    simp only [step, upd_same]
+    exact ho.l
+  · simp only [step, upd_ne _ _ hu]
+    exact other (h.l u) ho.e (ho.frame u hu)
+
+theorem Ext.trans {a b c : Shared} (h1 : Ext a b) (h2 : Ext b c) : Ext a c := by
+  refine ⟨Nat.le_trans h1.ninners_le h2.ninners_le, Nat.le_trans h1.ntables_le h2.ntables_le,
+    ?_, ?_, ?_, ?_, ?_⟩
+  · intro k hk
+    rw [h2.tables_eq k (Nat.lt_of_lt_of_le hk h1.ntables_le), h1.tables_eq k hk]
+  · intro i hi o ho
+    exact h2.tcur_mono i (Nat.lt_of_lt_of_le hi h1.ninners_le) o (h1.tcur_mono i hi o ho)
+  · intro o x h; exact h2.pairs o x (h1.pairs o x h)
+  · intro o x h
+    rcases h2.fresh o x h with h' | h'
+    · exact h1.fresh o x h'
+    · refine Or.inr fun k hk hm => ?_
+      have := h' k (Nat.lt_of_lt_of_le hk h1.ntables_le)
+      rw [h1.tables_eq k hk] at this
+      exact this hm
+  · intro o h; exact h2.tbl_mono o (h1.tbl_mono o h)
+
+theorem inv_run {cfg : Cfg} (hr : cfg.recheck = true) {s : State} (h : Inv cfg s)
+    (sched : List Tid) : Inv cfg (run cfg s sched) ∧ Ext s.sh (run cfg s sched).sh := by
+  induction sched generalizing s with
+  | nil => exact ⟨h, Ext.refl _⟩
+  | cons t rest ih =>
+    have h1 := inv_step hr h t
+    have h2 := ih h1.1
+    exact ⟨h2.1, h1.2.trans h2.2⟩
+
+/-- completed calls are never forgotten -/
+theorem results_stepT (cfg : Cfg) (sh : Shared) (t : Tid) (l : Local) (p : Text × Atom)
+    (h : p ∈ l.results) : p ∈ (stepT cfg sh t l).2.results := by
+  unfold stepT
+  cases hpc : l.pc <;> simp only [] <;> (repeat' split) <;>
+    first
+    | exact h
+    | (simp only [finish, List.mem_cons]; exact Or.inr h)
+
+theorem results_step (cfg : Cfg) (s : State) (t u : Tid) (p : Text × Atom)
+    (h : p ∈ (s.locals u).results) : p ∈ ((step cfg s t).locals u).results := by
+  by_cases hu : u = t
+  · subst hu
+    simp only [step, upd_same]
+    exact results_stepT cfg s.sh u _ p h
+  · simp only [step, upd_ne _ _ hu]
+    exact h
+
+theorem results_run (cfg : Cfg) (s : State) (sched : List Tid) (u : Tid) (p : Text × Atom)
+    (h : p ∈ (s.locals u).results) : p ∈ ((run cfg s sched).locals u).results := by
+  induction sched generalizing s with
+  | nil => exact h
+  | cons t rest ih => exact ih (step cfg s t) (results_step cfg s t u p h)
+
+theorem run_append (cfg : Cfg) (s : State) (a b : List Tid) :
+    run cfg s (a ++ b) = run cfg (run cfg s a) b := by
+  simp [run, List.foldl_append]
 
 end Scryer.AtomProto
